@@ -71,6 +71,7 @@ func (a *application) start(mode gen.ApplicationMode, options gen.ApplicationOpt
 			return err
 		}
 
+		lib.VerifPoint("app.start.spawned", pid)
 		a.group.Store(pid, true)
 	}
 
@@ -193,6 +194,7 @@ func (a *application) terminate(pid gen.PID, reason error) {
 		a.reason = gen.TerminateReasonNormal
 	}
 
+	lib.VerifPoint("app.term.swap", a.spec.Name)
 	old := atomic.SwapInt32(&a.state, int32(gen.ApplicationStateLoaded))
 	if old == int32(gen.ApplicationStateLoaded) {
 		return
